@@ -93,11 +93,11 @@ end
 /-- the two repairs that remove the runtime errors of pattern code on plain data -/
 def Safe (C : Cfg) : Prop := C.sizeNullJumps = true ∧ C.accessFalls = true
 
-theorem mEnts_noerr (hC : C.accessFalls = true) : ∀ (es : List Ent) (v : Val) (ρ : Env) (e : Err),
-    mEnts C es (.tmp v) ρ ≠ .err e
-  | [], _, _, _ => by simp [mEnts]
+theorem mEntsSeq_noerr (hC : C.accessFalls = true) : ∀ (es : List Ent) (v : Val) (ρ : Env) (e : Err),
+    mEntsSeq C es (.tmp v) ρ ≠ .err e
+  | [], _, _, _ => by simp [mEntsSeq]
   | en :: es, v, ρ, e => by
-    simp only [mEnts, Src.rd]
+    simp only [mEntsSeq, Src.rd]
     cases v with
     | map m =>
       simp only [tryAccess]
@@ -107,8 +107,38 @@ theorem mEnts_noerr (hC : C.accessFalls = true) : ∀ (es : List Ent) (v : Val) 
         simp only
         split
         · simp
-        · exact mEnts_noerr hC es _ _ e
+        · exact mEntsSeq_noerr hC es _ _ e
     | _ => simp [tryAccess, hC]
+
+theorem collect_noerr (hC : C.accessFalls = true) : ∀ (es : List Ent) (v : Val) (e : Err),
+    collectEnts C es v ≠ .error e
+  | [], _, _ => by simp [collectEnts]
+  | en :: es, v, e => by
+    have ih := collect_noerr hC es v e
+    simp only [collectEnts]
+    cases v with
+    | map m =>
+      simp only [tryAccess]
+      cases lookupKey en.key m with
+      | none => simp
+      | some x =>
+        simp only
+        split
+        · simp
+        · cases hc : collectEnts C es (.map m) with
+          | error er => exact absurd hc (collect_noerr hC es _ er)
+          | ok o => cases o <;> simp
+    | _ => simp [tryAccess, hC]
+
+theorem mEnts_noerr (hC : C.accessFalls = true) (es : List Ent) (v : Val) (ρ : Env) (e : Err) :
+    mEnts C es (.tmp v) ρ ≠ .err e := by
+  unfold mEnts
+  split
+  · simp only [Src.rd]
+    cases hc : collectEnts C es v with
+    | error er => exact absurd hc (collect_noerr hC es v er)
+    | ok o => cases o <;> simp
+  · exact mEntsSeq_noerr hC es v ρ e
 
 def NoErr (F : FloatOps) (C : Cfg) (p : Pat) : Prop :=
   ∀ (la il : Bool) (a : Acc) (ρ : Env) (v : Val) (e : Err), Reads a v → plain v = true →
